@@ -162,6 +162,39 @@ def _set_channels(cfg, optical, radio):
     return c
 
 
+def _perturbed(cfg, factor=1.07, pick=None):
+    """The same kind of run with real-valued settings (all, or those `pick` selects) slightly different (the configuration
+    has far more fields than the cross product explores): used as the run that happened earlier
+    in the process.  Fields that refuse the new value keep the old one."""
+    c = cfg.model_copy(deep=True)
+    changed = []
+
+    def walk(obj, path):
+        fields = getattr(type(obj), "model_fields", None)
+        if not fields:
+            return
+        for name in fields:
+            try:
+                v = getattr(obj, name)
+            except Exception:  # noqa: BLE001
+                continue
+            if isinstance(v, bool) or v is None:
+                continue
+            if isinstance(v, float):
+                if pick is not None and not pick(path + name):
+                    continue
+                try:
+                    setattr(obj, name, v * factor if v != 0.0 else 0.01)
+                    changed.append(path + name)
+                except Exception:  # noqa: BLE001
+                    pass
+            elif hasattr(type(v), "model_fields"):
+                walk(v, path + name + ".")
+
+    walk(c, "")
+    return c, changed
+
+
 def scn_full(ctx):
     from nuspacesim.simulation.geometry.region_geometry import RegionGeom, RegionGeomToO
     from nuspacesim.simulation.taus.taus import Taus, massTau
@@ -338,6 +371,24 @@ def scn_full(ctx):
         d = _diff(c0, canon(Re))
         if d:
             raise Violation("c14.environment_dependent", f"with {'an ASCII-only stdout' if envd == 4 else 'TZ=' + ekw['tz']} the results differ from the run in the default environment with the same seed: {d}", sig="compute:" + ("stdout" if envd == 4 else "tz"))
+
+    # ---- what ran earlier in the process must not matter: a run of ANOTHER configuration (every real-
+    # valued setting a few per cent off, same switches), then this one again ----------------------
+    if rows > 0 and ch.draw(5, "after_another_configuration") == 4:
+        # a seeded subset of the settings: a stale cache keyed on SOME of them shows only when
+        # exactly the others differ
+        other, changed = _perturbed(cfg, pick=lambda nm: ch.draw(2, "perturb") == 1)
+        sto, Ro, _ = run_compute(other, s + 1, T0)
+        stq, Rq, _ = run_compute(cfg, s, T0)
+        ctx.log(f"R_other({len(changed)} settings changed) -> {sto}; R_again -> {stq}")
+        ctx.probes["run_after_another_configuration"] += 1
+        if sto == "exc":
+            ctx.probes["perturbed_configuration_raised"] += 1
+        if stq == "exc":
+            raise Violation("c14.history_dependent", f"after a run of another configuration in the same process the run raised {type(Rq).__name__}: {str(Rq)[:160]}; first in the process it returns", sig="compute:after-other-config")
+        d = _diff(c0, canon(Rq))
+        if d:
+            raise Violation("c14.history_dependent", f"after a run of another configuration in the same process ({len(changed)} real-valued settings a few per cent off) the results differ from the same seeded run made first: {d}", sig="compute:after-other-config")
 
     # ---- (c) channel isolation ----------------------------------------------------------------
     if opt and rad and rows > 0:
